@@ -2,7 +2,7 @@
 // flag is declared).
 //   argv[1] == "dump": prints what simgrid::config::help() and show_aliases() print (the translator parses it)
 //   otherwise stdin, one query per line, each executed in a forked child (callbacks have side effects):
-//     set|setn <api> <hexname> <hexvalue>   (setn = in-process, no fork)   api in {str (set_as_string), parse (set_parse "name:value"), eng (Engine::set_config)}
+//     set|setn <api> <hexname> <hexvalue>   (setn = in-process, no fork)   api in {str (set_as_string), parse (set_parse "name:value"), eng (Engine::set_config), typ (typed set_value<T>)}
 //   answer: ok <type> <hexreadback> <isdefault> <readback-via-real-name-equal 0/1>
 //           | range <hexmsg> | unknown | abort | exit <code> | crash <sig> | other <hexmsg>
 //   readback: bool 0/1, int decimal, double %a, string raw — hex-encoded
@@ -69,6 +69,18 @@ static std::string do_set(const std::string& api, const std::string& name, const
       simgrid::config::set_as_string(name.c_str(), value);
     else if (api == "parse")
       simgrid::config::set_parse(name + ":" + value);
+    else if (api == "typ") { // the typed API (Engine::set_config(name, T), sg_cfg_set_*): canonical values only
+      auto itt         = types.find(name);
+      std::string type = itt == types.end() ? "string" : itt->second.substr(0, itt->second.find(' '));
+      if (type == "bool")
+        simgrid::config::set_value<bool>(name.c_str(), value == "1");
+      else if (type == "int")
+        simgrid::config::set_value<int>(name.c_str(), std::stoi(value));
+      else if (type == "double")
+        simgrid::config::set_value<double>(name.c_str(), std::stod(value));
+      else
+        simgrid::config::set_value<std::string>(name.c_str(), value);
+    }
     else
       simgrid::s4u::Engine::set_config(name + ":" + value);
     auto it = types.find(name);
